@@ -328,9 +328,7 @@ func (m *mavenExtension) compare(e extension) int {
 		}
 		return c
 	}
-	if len(bs) > len(as) {
-		return -1
-	}
+	// Every element, padding included, compared equal.
 	return 0
 }
 
